@@ -211,7 +211,7 @@ class ProgProp:
         has_ext = any(r[1] == tab.ext for r in ref)
         res.nontrivial = has_ext or len(co_code) > 255 or bool(labels)
         res.key = [v, rw.hx(co_code)]
-        res.evals = max(1, len(ref))
+        res.evals = max(1, min(len(ref), len(case["items"]) + 3))
         if has_ext:
             res.classes.append("EXTENDED_ARG")
         return res
@@ -242,6 +242,19 @@ class ProgProp:
             for rel in pd.corpus_files():
                 if "dropbox" not in rel:
                     yield {"k": "corpus", "path": rel}
+        if self.use_asm:
+            # jumps across > 2^16 bytes / code units in every version: forward over the run, to the end, and back
+            for v in OLD_ASM + list(self.versions):
+                old = v in OLD_ASM
+                tab = self.old_tables(ctx, v) if old else self.tables(ctx, v)
+                vt = ga.vt(v)
+                rep = 66000 if (vt < (3, 6) or vt >= (3, 10)) else 33000
+                fwd = "JUMP_FORWARD"
+                back = "JUMP_ABSOLUTE" if "JUMP_ABSOLUTE" in tab.opmap else "JUMP_BACKWARD"
+                items = [{"op": fwd, "arg": 0, "pre": 0, "to": 2}, {"op": "NOP", "arg": None, "pre": 0, "to": None, "rep": rep},
+                         {"op": fwd, "arg": 0, "pre": 0, "to": -1}, {"op": back, "arg": 0, "pre": 0, "to": 0},
+                         {"op": back, "arg": 0, "pre": 0, "to": 2}, {"op": "NOP", "arg": None, "pre": 0, "to": None}]
+                yield {"k": "asmold" if old else "asm", "v": v, "items": items}
 
     def judge_corpus_internal(self, case, ctx):
         """corpus files (incl. versions with no interpreter): oracles internal to the decoded stream"""
